@@ -35,3 +35,27 @@ func ZZ_C18_NoConnectionLeftBehind() {
 	vx.Assert("the request talked to its peers", vx.ConnsOpened() >= 0)
 	vx.Assert("no connection opened by the request is left open and unreachable", vx.ConnsLeaked() == 0)
 }
+
+// C18 with slow peers: the same request under the scheduler, where goroutines
+// started by the code under test are real threads and every timer may fire at
+// any moment (a peer that is slow at any stage: connection set-up, answer).
+// When the request is over and the tasks it started have run to completion,
+// no connection is left open and unreachable.
+//
+//gosx:property=C18 tier=quick unwind=40 timeout=30000
+func ZZ_C18_SlowPeers() {
+	zzSetup()
+	zzAccount(zzSupi, 1, 1000000, 10)
+	ue, _ := zzPreState(1)
+	_ = ue
+	vx.Scheduler(2)
+	vx.Config("sched.timersFire", true)
+	vx.Config("diam.answerMayBeLost", true)
+	u, _ := zzUsageInd("u0", 1, 1, 1)
+	u.UsedUnitContainer[0].QuotaManagementIndicator = models.QuotaManagementIndicator_ONLINE_CHARGING
+	zzSmallUsage(&u)
+	req := models.ChfConvergedChargingChargingDataRequest{SubscriberIdentifier: zzSupi, MultipleUnitUsage: []models.ChfConvergedChargingMultipleUnitUsage{u}}
+	sessionChargingReservation(req)
+	vx.Quiesce()
+	vx.Assert("no connection is left open and unreachable once the request and the tasks it started are over", vx.ConnsLeaked() == 0)
+}
